@@ -217,6 +217,76 @@ pub fn reg_wf(max: usize) -> impl Strategy<Value = MReg> {
         })
 }
 
+/// deep well-formed registries: one reference path of 65..=`max_depth` entries (every link a
+/// different reference position: element, member, field, parameter, compact, bit store/order),
+/// stored under shuffled ids, with a few extra random references (cycles, shortcuts) and some
+/// unrelated entries. A recursion-depth limit, a work list that is drained once, or an id cache of
+/// fixed size in a traversal has nothing to show on the shallow graphs `reg_wf` draws.
+pub fn reg_deep(max_depth: usize) -> impl Strategy<Value = MReg> {
+    (65usize..=max_depth, 0usize..6)
+        .prop_flat_map(|(depth, extra)| {
+            let n = depth + extra;
+            (
+                Just(depth),
+                Just(n),
+                vec(any::<u16>(), n..=n), // shuffle keys
+                vec((0u8..9, any::<u16>(), prop::bool::weighted(0.04)), n..=n), // link kind, extra reference, use it (rarely: shortcuts make every path short)
+                vec(any::<u8>(), n..=n),
+            )
+        })
+        .prop_map(|(depth, n, keys, kinds, salt)| {
+            // position in the chain -> id (a permutation of 0..n)
+            let mut order: Vec<usize> = (0..n).collect();
+            order.sort_by_key(|i| (keys[*i], *i));
+            let id_of = |pos: usize| order[pos] as u32;
+            let mut types: Vec<Option<MPType>> = vec![None; n];
+            for pos in 0..n {
+                let (kind, extra, use_extra) = kinds[pos];
+                let next = if pos + 1 < depth { Some(id_of(pos + 1)) } else { None };
+                let other = id_of(crate::runner::pick(extra, n));
+                let fld = |ty: u32, named: bool| MField {
+                    name: if named { Some(format!("f{}", salt[pos])) } else { None },
+                    ty,
+                    type_name: None,
+                    docs: vec![],
+                };
+                let mut params = vec![];
+                let def = match next {
+                    None => MDef::Primitive(ALL_PRIMS[salt[pos] as usize % 15]),
+                    Some(nx) => match kind {
+                        0 => MDef::Sequence(nx),
+                        1 => MDef::Array { len: salt[pos] as u32, ty: nx },
+                        2 => MDef::Tuple(if use_extra { vec![other, nx] } else { vec![nx] }),
+                        3 => MDef::Compact(nx),
+                        4 => MDef::Composite(if use_extra { vec![fld(nx, true), fld(other, true)] } else { vec![fld(nx, false)] }),
+                        5 => MDef::Variant(vec![
+                            MVariant { name: "A".into(), fields: vec![], index: 0, docs: vec![] },
+                            MVariant { name: "B".into(), fields: vec![fld(nx, false)], index: salt[pos], docs: vec![] },
+                        ]),
+                        6 => MDef::BitSequence { store: nx, order: if use_extra { other } else { nx } },
+                        7 => MDef::BitSequence { store: if use_extra { other } else { nx }, order: nx },
+                        _ => {
+                            // reachable through a type parameter only
+                            params.push(MParam { name: "T".into(), ty: Some(nx) });
+                            MDef::Composite(vec![])
+                        }
+                    },
+                };
+                let id = id_of(pos);
+                types[id as usize] = Some(MPType {
+                    id,
+                    ty: MType {
+                        path: if kind >= 4 { vec![format!("T{pos}")] } else { vec![] },
+                        params,
+                        def,
+                        docs: vec![],
+                    },
+                });
+            }
+            MReg { types: types.into_iter().map(|t| t.expect("permutation")).collect() }
+        })
+}
+
 /// single-point mutations used for injectivity pairs (C07): returns a registry that differs
 /// from `m` (or None when the mutation does not apply)
 pub fn mutate(m: &MReg, which: u16, sel: u16) -> Option<MReg> {
